@@ -1,3 +1,472 @@
-use vh::runner::Ctx;
+//! C03 — allocator: live blocks aligned, disjoint, intact; OOM gives null, heap stays usable.
+//!
+//! Histories over a private `Dlmalloc` instance, with the `sc` interposer refusing chosen
+//! mmap/mremap calls and steering the placement of new segments. Oracle: shadow map of live
+//! blocks with per-block fill patterns.
+use std::collections::BTreeMap;
 
-pub fn run(_ctx: &Ctx) {}
+use proptest::prelude::*;
+use serde::{Deserialize, Serialize};
+use tiny_std::allocator::dlmalloc::Dlmalloc;
+
+use vh::runner::{no_panic, CaseReport, CaseResult, Ctx, Failure};
+use vh::{ensure, fail};
+
+#[derive(Debug, Clone, Serialize, Deserialize, PartialEq)]
+pub enum AOp {
+    Malloc { size: usize, align_log2: u8 },
+    Calloc { size: usize, align_log2: u8 },
+    Realloc { slot: u16, size: usize },
+    Free { slot: u16 },
+}
+
+#[derive(Debug, Clone, Serialize, Deserialize)]
+pub struct AllocCase {
+    pub ops: Vec<AOp>,
+    /// indices (among this history's MMAP calls / MREMAP calls) that the kernel refuses
+    pub mmap_faults: Vec<u16>,
+    pub mremap_faults: Vec<u16>,
+    /// placement steering per MMAP call: 1 directly above the previous mapping, 2 directly below
+    pub placement: Vec<u8>,
+}
+
+const LIVE_CAP: usize = 96 << 20;
+const ENOMEM: i32 = 12;
+const HUGE: usize = usize::MAX - (2 << 20);
+/// requests of this size and above cannot be granted by the kernel (47-bit address space)
+const ABSURD: usize = 1 << 46;
+
+struct Block {
+    ptr: *mut u8,
+    size: usize,
+    align: usize,
+    seed: u64,
+}
+
+fn pat(seed: u64, i: usize) -> u8 {
+    let x = (seed ^ (i as u64).wrapping_mul(0x9E37_79B9_7F4A_7C15)).wrapping_mul(0xBF58_476D_1CE4_E5B9);
+    (x >> 56) as u8 | 1
+}
+
+/// Offsets checked for a block: everything for blocks <= 256 KiB; for larger blocks the first
+/// and last 4 KiB, one byte per page (per ~size/512 above 2 MiB) and 8 seed-derived interior
+/// windows of 64 bytes.
+fn for_each_checked_offset(size: usize, seed: u64, mut f: impl FnMut(usize) -> bool) -> bool {
+    if size <= 256 << 10 {
+        for i in 0..size {
+            if !f(i) {
+                return false;
+            }
+        }
+        return true;
+    }
+    for i in 0..4096 {
+        if !f(i) {
+            return false;
+        }
+    }
+    for i in size - 4096..size {
+        if !f(i) {
+            return false;
+        }
+    }
+    // every page for blocks up to 2 MiB, ~512 evenly spread pages above that
+    let stride = if size <= 2 << 20 { 4096 } else { (size / 512) & !4095 };
+    let mut i = 4096;
+    while i < size - 4096 {
+        if !f(i) {
+            return false;
+        }
+        i += stride;
+    }
+    for w in 0..8u64 {
+        let start = 4096 + (vh::runner::splitmix(seed ^ w) as usize % (size - 8192 - 64));
+        for i in start..start + 64 {
+            if !f(i) {
+                return false;
+            }
+        }
+    }
+    true
+}
+
+unsafe fn fill(b: &Block) {
+    for_each_checked_offset(b.size, b.seed, |i| {
+        b.ptr.add(i).write(pat(b.seed, i));
+        true
+    });
+}
+
+unsafe fn verify_prefix(ptr: *mut u8, checked_size: usize, pattern_size: usize, seed: u64) -> Option<usize> {
+    // verify the bytes of a block whose pattern was laid out for `pattern_size`, over the
+    // first `checked_size` bytes
+    let mut bad = None;
+    for_each_checked_offset(pattern_size, seed, |i| {
+        if i < checked_size && ptr.add(i).read() != pat(seed, i) {
+            bad = Some(i);
+            return false;
+        }
+        true
+    });
+    bad
+}
+
+struct Heap {
+    a: Dlmalloc,
+    slots: Vec<Option<Block>>,
+    /// start -> end of live blocks
+    intervals: BTreeMap<usize, usize>,
+    live: usize,
+    next_seed: u64,
+    /// regions mapped by this instance and not yet unmapped: base -> len (from the sc log)
+    maps: BTreeMap<usize, usize>,
+    log_pos: usize,
+}
+
+impl Heap {
+    fn overlaps(&self, start: usize, end: usize) -> Option<(usize, usize)> {
+        if start == end {
+            return None;
+        }
+        if let Some((&s, &e)) = self.intervals.range(..end).next_back() {
+            if e > start && s < end {
+                return Some((s, e));
+            }
+        }
+        None
+    }
+
+    unsafe fn verify_all(&self, when: &str) -> Result<(), Failure> {
+        for (i, b) in self.slots.iter().enumerate() {
+            if let Some(b) = b {
+                if let Some(off) = verify_prefix(b.ptr, b.size, b.size, b.seed) {
+                    fail!("intact|foreign write into a live block", "{when}: live block #{i} (ptr {:p}, size {}, align {}) changed at offset {off} without its owner writing", b.ptr, b.size, b.align);
+                }
+            }
+        }
+        Ok(())
+    }
+
+    /// Fold the sc log into the ledger of regions this allocator still holds.
+    fn absorb_log(&mut self) {
+        let log = sc::verif::log_peek();
+        for c in &log[self.log_pos..] {
+            let err = c.ret > (-4096isize) as usize;
+            if !c.executed || err {
+                continue;
+            }
+            if c.nr == sc::nr::MMAP {
+                self.maps.insert(c.ret, c.args[1]);
+            } else if c.nr == sc::nr::MUNMAP {
+                ledger_unmap(&mut self.maps, c.args[0], c.args[1]);
+            } else if c.nr == sc::nr::MREMAP {
+                let (old, oldlen, newlen) = (c.args[0], c.args[1], c.args[2]);
+                ledger_unmap(&mut self.maps, old, oldlen);
+                self.maps.insert(c.ret, newlen);
+            }
+        }
+        self.log_pos = log.len();
+    }
+}
+
+fn ledger_unmap(maps: &mut BTreeMap<usize, usize>, addr: usize, len: usize) {
+    let end = addr + len;
+    let hits: Vec<(usize, usize)> = maps.range(..end).filter(|(&b, &l)| b + l > addr).map(|(&b, &l)| (b, l)).collect();
+    for (b, l) in hits {
+        maps.remove(&b);
+        if b < addr {
+            maps.insert(b, addr - b);
+        }
+        if b + l > end {
+            maps.insert(end, b + l - end);
+        }
+    }
+}
+
+fn run_history(c: &AllocCase, rep: &mut CaseReport) -> Result<(), Failure> {
+    use sc::verif::{Action, Rule};
+    let mut rules = Vec::new();
+    for &k in &c.mmap_faults {
+        rules.push(Rule { nr: Some(sc::nr::MMAP), nth: Some(k as usize), action: Action::ForceRet(sc::verif::neg_errno(ENOMEM)), times: 1 });
+    }
+    for &k in &c.mremap_faults {
+        rules.push(Rule { nr: Some(sc::nr::MREMAP), nth: Some(k as usize), action: Action::ForceRet(sc::verif::neg_errno(ENOMEM)), times: 1 });
+    }
+    sc::verif::install();
+    sc::verif::plan(rules);
+    sc::verif::set_mmap_hint_modes(c.placement.clone());
+    sc::verif::log_begin();
+    let mut h = Heap { a: Dlmalloc::new(), slots: Vec::new(), intervals: BTreeMap::new(), live: 0, next_seed: 1, maps: BTreeMap::new(), log_pos: 0 };
+    let res = run_ops(c, &mut h, rep);
+    // tear down: nothing else can reference the instance's memory
+    h.absorb_log();
+    let _ = sc::verif::log_end();
+    sc::verif::clear_plan();
+    let segs = h.maps.len();
+    for (&b, &l) in &h.maps {
+        unsafe { libc::munmap(b as *mut libc::c_void, l) };
+    }
+    rep.class_if(segs >= 2, "multi-segment-at-end");
+    res
+}
+
+fn run_ops(c: &AllocCase, h: &mut Heap, rep: &mut CaseReport) -> Result<(), Failure> {
+    let mut reused = false;
+    let mut had_free = false;
+    let mut refusals_seen = 0usize;
+    let mut freed_ranges: Vec<(usize, usize)> = Vec::new();
+    for (step, op) in c.ops.iter().enumerate() {
+        let before_ref = sc::verif::map_refusals();
+        let log_before = sc::verif::log_peek().len();
+        match *op {
+            AOp::Malloc { size, align_log2 } | AOp::Calloc { size, align_log2 } => {
+                let zeroed = matches!(op, AOp::Calloc { .. });
+                let align = 1usize << align_log2.min(13);
+                if size < ABSURD && h.live + size > LIVE_CAP {
+                    rep.class("skipped-live-cap");
+                    continue;
+                }
+                let name = if zeroed { "calloc" } else { "malloc" };
+                let ptr = no_panic(name, || unsafe {
+                    if zeroed {
+                        h.a.calloc(size, align)
+                    } else {
+                        h.a.malloc(size, align)
+                    }
+                })?;
+                let refused = sc::verif::map_refusals() > before_ref;
+                if ptr.is_null() {
+                    ensure!(refused || size >= HUGE - align, format!("{name}|null-without-os-refusal"), "step {step}: {name}({size}, align {align}) returned null although the OS refused nothing during the call");
+                    rep.class(if refused { "oom-null" } else { "oversize-null" });
+                    refusals_seen += usize::from(refused);
+                    unsafe { h.verify_all("after a null result")? };
+                    // heap remains usable: the same request without a fault must succeed
+                    if refused && size <= 64 << 20 && h.live + size <= LIVE_CAP {
+                        let before_retry = sc::verif::map_refusals();
+                        let p2 = no_panic(name, || unsafe { h.a.malloc(size, align) })?;
+                        let refused2 = sc::verif::map_refusals() > before_retry;
+                        ensure!(!p2.is_null() || refused2, format!("{name}|heap-unusable-after-oom"), "step {step}: after an OS refusal, retrying {name}({size}, align {align}) with no refusal returned null");
+                        if !p2.is_null() {
+                            accept_block(h, p2, size, align, false, step, name, &mut reused, &freed_ranges)?;
+                            rep.class("retry-after-oom-succeeded");
+                        }
+                    }
+                } else {
+                    accept_block(h, ptr, size, align, zeroed, step, name, &mut reused, &freed_ranges)?;
+                }
+            }
+            AOp::Realloc { slot, size } => {
+                let live: Vec<usize> = h.slots.iter().enumerate().filter(|(_, b)| b.is_some()).map(|(i, _)| i).collect();
+                if live.is_empty() {
+                    continue;
+                }
+                let idx = live[vh::runner::pick_idx(slot, live.len())];
+                let old = h.slots[idx].take().unwrap();
+                if size < ABSURD && h.live - old.size + size > LIVE_CAP {
+                    h.slots[idx] = Some(old);
+                    rep.class("skipped-live-cap");
+                    continue;
+                }
+                if let Some(off) = unsafe { verify_prefix(old.ptr, old.size, old.size, old.seed) } {
+                    fail!("intact|foreign write into a live block", "step {step}: block #{idx} changed at offset {off} before realloc");
+                }
+                let ptr = no_panic("realloc", || unsafe { h.a.realloc(old.ptr, old.size, old.align, size) })?;
+                let refused = sc::verif::map_refusals() > before_ref;
+                if ptr.is_null() {
+                    ensure!(refused || size >= HUGE - old.align, "realloc|null-without-os-refusal", "step {step}: realloc({} -> {size}, align {}) returned null although the OS refused nothing", old.size, old.align);
+                    rep.class(if refused { "realloc-oom-null" } else { "oversize-null" });
+                    // old block must be intact and still live
+                    if let Some(off) = unsafe { verify_prefix(old.ptr, old.size, old.size, old.seed) } {
+                        fail!("realloc|old block damaged after failed realloc", "step {step}: offset {off}");
+                    }
+                    h.slots[idx] = Some(old);
+                    unsafe { h.verify_all("after a failed realloc")? };
+                } else {
+                    let keep = old.size.min(size);
+                    ensure!(ptr as usize % old.align == 0, "realloc|misaligned", "step {step}: realloc result {ptr:p} not aligned to {}", old.align);
+                    if let Some(off) = unsafe { verify_prefix(ptr, keep, old.size, old.seed) } {
+                        fail!("realloc|common prefix not preserved", "step {step}: realloc({} -> {size}) lost byte {off} of the common prefix ({keep} bytes)", old.size);
+                    }
+                    h.intervals.remove(&(old.ptr as usize));
+                    h.live -= old.size;
+                    let start = ptr as usize;
+                    if let Some((s, e)) = h.overlaps(start, start + size) {
+                        fail!("disjoint|block overlaps another live block", "step {step}: realloc result [{start:#x},{:#x}) overlaps live block [{s:#x},{e:#x})", start + size);
+                    }
+                    rep.class(if ptr == old.ptr { if size > old.size { "realloc-in-place-grow" } else { "realloc-in-place-shrink" } } else { "realloc-moved" });
+                    if ptr != old.ptr {
+                        freed_ranges.push((old.ptr as usize, old.size));
+                        had_free = true;
+                    }
+                    let seed = h.next_seed;
+                    h.next_seed += 1;
+                    let nb = Block { ptr, size, align: old.align, seed };
+                    unsafe { fill(&nb) };
+                    if size > 0 {
+                        h.intervals.insert(start, start + size);
+                    }
+                    h.live += size;
+                    h.slots[idx] = Some(nb);
+                }
+            }
+            AOp::Free { slot } => {
+                let live: Vec<usize> = h.slots.iter().enumerate().filter(|(_, b)| b.is_some()).map(|(i, _)| i).collect();
+                if live.is_empty() {
+                    continue;
+                }
+                let idx = live[vh::runner::pick_idx(slot, live.len())];
+                let b = h.slots[idx].take().unwrap();
+                if let Some(off) = unsafe { verify_prefix(b.ptr, b.size, b.size, b.seed) } {
+                    fail!("intact|foreign write into a live block", "step {step}: block #{idx} (size {}) changed at offset {off} before free", b.size);
+                }
+                no_panic("free", || unsafe { h.a.free(b.ptr) })?;
+                h.intervals.remove(&(b.ptr as usize));
+                h.live -= b.size;
+                freed_ranges.push((b.ptr as usize, b.size));
+                had_free = true;
+            }
+        }
+        // classify what the OS saw during this call
+        let log = sc::verif::log_peek();
+        for call in &log[log_before..] {
+            let err = call.ret > (-4096isize) as usize;
+            if call.nr == sc::nr::MMAP && !err {
+                rep.class("new-segment");
+            }
+            if call.nr == sc::nr::MUNMAP && !err {
+                rep.class("trim-or-release-munmap");
+            }
+            if call.nr == sc::nr::MREMAP && !err {
+                rep.class("mremap");
+            }
+        }
+        if step % 16 == 15 {
+            unsafe { h.verify_all("periodic check")? };
+        }
+        h.absorb_log();
+    }
+    unsafe { h.verify_all("end of history")? };
+    rep.nontrivial_if((had_free && reused) || refusals_seen > 0);
+    rep.class_if(reused, "reuse-of-freed-memory");
+    Ok(())
+}
+
+#[allow(clippy::too_many_arguments)]
+fn accept_block(h: &mut Heap, ptr: *mut u8, size: usize, align: usize, zeroed: bool, step: usize, name: &str, reused: &mut bool, freed: &[(usize, usize)]) -> Result<(), Failure> {
+    let start = ptr as usize;
+    ensure!(start % align == 0, format!("{name}|misaligned"), "step {step}: {name}({size}, align {align}) returned {ptr:p}");
+    if let Some((s, e)) = h.overlaps(start, start + size) {
+        fail!("disjoint|block overlaps another live block", "step {step}: {name}({size}, align {align}) = [{start:#x},{:#x}) overlaps live block [{s:#x},{e:#x})", start + size);
+    }
+    let seed = h.next_seed;
+    h.next_seed += 1;
+    let b = Block { ptr, size, align, seed };
+    if zeroed {
+        let mut bad = None;
+        for_each_checked_offset(size, seed, |i| {
+            if unsafe { ptr.add(i).read() } != 0 {
+                bad = Some(i);
+                return false;
+            }
+            true
+        });
+        if let Some(off) = bad {
+            fail!("calloc|non-zero byte", "step {step}: calloc({size}, align {align}) byte {off} is not zero");
+        }
+    }
+    unsafe { fill(&b) };
+    if freed.iter().rev().take(64).any(|&(s, l)| start < s + l && s < start + size.max(1)) {
+        *reused = true;
+    }
+    if size > 0 {
+        h.intervals.insert(start, start + size);
+    }
+    h.live += size;
+    // reuse an empty slot index if any
+    if let Some(i) = h.slots.iter().position(|s| s.is_none()) {
+        h.slots[i] = Some(b);
+    } else {
+        h.slots.push(Some(b));
+    }
+    Ok(())
+}
+
+pub fn check_alloc(c: &AllocCase) -> CaseResult {
+    let mut rep = CaseReport::new();
+    let r = run_history(c, &mut rep);
+    // never leave a plan behind, even on failure paths
+    sc::verif::clear_plan();
+    r?;
+    rep.class_if(!c.mmap_faults.is_empty() || !c.mremap_faults.is_empty(), "fault-plan");
+    rep.class_if(c.placement.iter().any(|&p| p == 1), "placement-above");
+    rep.class_if(c.placement.iter().any(|&p| p == 2), "placement-below");
+    Ok(rep)
+}
+
+// ------------------------------------------------------------------------------------------
+// generators
+// ------------------------------------------------------------------------------------------
+
+fn size_strategy() -> impl Strategy<Value = usize> {
+    let small_edges = (1usize..=33, 0usize..3).prop_map(|(k, d)| (8 * k + d).saturating_sub(1));
+    let tree_edges = (8u32..=22, prop::sample::select(vec![0usize, 1, 8, 16]), any::<bool>(), any::<bool>()).prop_map(|(k, d, half, minus)| {
+        let base = if half { (1usize << k) + (1usize << (k - 1)) } else { 1usize << k };
+        if minus {
+            base - d
+        } else {
+            base + d
+        }
+    });
+    let around = |c: usize| (0usize..=128).prop_map(move |d| c + d - 64);
+    prop_oneof![
+        6 => small_edges,
+        4 => 0usize..=300,
+        4 => tree_edges,
+        1 => around(64 << 10),
+        1 => around((64 << 10) - 80),
+        1 => around(2 << 20),
+        2 => 300usize..70_000,
+        1 => 70_000usize..(3 << 20),
+        1 => prop::sample::select(vec![4usize << 20, 8 << 20, 16 << 20, 32 << 20, (32 << 20) + 1, (1 << 20) - 1]),
+        1 => prop::sample::select(vec![usize::MAX, usize::MAX - 1, usize::MAX - 4096, usize::MAX - (64 << 10), isize::MAX as usize, isize::MAX as usize + 1, 1usize << 62, 1usize << 47, (1usize << 63) - 4096]),
+    ]
+}
+
+fn align_strategy() -> impl Strategy<Value = u8> {
+    prop_oneof![6 => 0u8..=4, 3 => 5u8..=8, 2 => 9u8..=13]
+}
+
+fn op_strategy() -> impl Strategy<Value = AOp> {
+    prop_oneof![
+        5 => (size_strategy(), align_strategy()).prop_map(|(size, align_log2)| AOp::Malloc { size, align_log2 }),
+        2 => (size_strategy(), align_strategy()).prop_map(|(size, align_log2)| AOp::Calloc { size, align_log2 }),
+        3 => (any::<u16>(), size_strategy()).prop_map(|(slot, size)| AOp::Realloc { slot, size }),
+        5 => any::<u16>().prop_map(|slot| AOp::Free { slot }),
+    ]
+}
+
+pub fn case_strategy(max_ops: usize) -> impl Strategy<Value = AllocCase> {
+    (
+        prop::collection::vec(op_strategy(), 1..max_ops),
+        prop_oneof![3 => Just(vec![]), 2 => prop::collection::vec(0u16..12, 1..4)],
+        prop_oneof![4 => Just(vec![]), 1 => prop::collection::vec(0u16..6, 1..3)],
+        prop_oneof![2 => Just(vec![]), 3 => prop::collection::vec(0u8..3, 1..16)],
+    )
+        .prop_map(|(ops, mmap_faults, mremap_faults, placement)| AllocCase { ops, mmap_faults, mremap_faults, placement })
+}
+
+pub fn run(ctx: &Ctx) {
+    ctx.run_prop("history", ctx.cases(500, 40_000), case_strategy(250), check_alloc);
+    // short histories with every single fault position enumerated by the generator's range
+    ctx.run_prop(
+        "single-fault",
+        ctx.cases(300, 20_000),
+        (prop::collection::vec(op_strategy(), 1..40), 0u16..8, any::<bool>(), prop::collection::vec(0u8..3, 0..8)).prop_map(|(ops, k, remap, placement)| AllocCase {
+            ops,
+            mmap_faults: if remap { vec![] } else { vec![k] },
+            mremap_faults: if remap { vec![k % 3] } else { vec![] },
+            placement,
+        }),
+        check_alloc,
+    );
+}
